@@ -1,5 +1,6 @@
 """C04 — comprehension forms: strategy agreement, strategy guard, laziness, variable leaking, else placement."""
 CANON = True
+STRICT = {"R-LIN-ANON", "R-LIN-VAR", "R-LIN-PATH", "R-EXPR-STORE", "R-REC-FWD"}
 
 import ast
 
@@ -83,10 +84,26 @@ def check(ctx, src):
               witness="(lfor x xs :do (f) x) leaks x into the enclosing scope", detail="scope.iterator(target) when not for")
     it = comp.sc.func("ScopeGen.iterator")
     ctx.require(it is not None, "ScopeGen.iterator not found")
-    upd = pyq.contains(it, lambda n: isinstance(n, ast.Call) and norm(n.func) == "self.iterators.update")
-    ctx.check(upd is not None and "ast.walk(target)" in norm(upd) and "isinstance(name, ast.Name)" in norm(upd), "COMP-LEAK", f"{SC}|ScopeGen.iterator|all names",
-              "iterator() must collect every Name inside the target (nested and starred destructuring), not only the top-level ones", SC, it.lineno,
-              witness="(lfor #(a #(b #* c)) xs :do (f) a) leaks b and c", detail="ast.walk(target)")
+    # iterator(): every Name inside the target is an iteration variable.  Either the target is traversed completely
+    # (ast.walk), or the hand-written traversal handles every node kind a store target can nest: Tuple, List, Starred
+    tp = it.args.args[1].arg if len(it.args.args) > 1 else None
+    fns = [it] + [comp.sc.func(f"ScopeGen.{c.func.attr}") for c in pyq.calls(it) if isinstance(c.func, ast.Attribute) and dotted(c.func.value) in ("self", "cls") and comp.sc.func(f"ScopeGen.{c.func.attr}") is not None]
+    fns += [comp.sc.func(c.func.id) for c in pyq.calls(it) if isinstance(c.func, ast.Name) and comp.sc.func(c.func.id) is not None]
+    walked = any(isinstance(c, ast.Call) and dotted(c.func) == "ast.walk" for fn in fns for c in ast.walk(fn))
+    kinds = {dotted(x).split(".")[-1] for fn in fns for c in ast.walk(fn) if isinstance(c, ast.Call) and dotted(c.func) == "isinstance" and len(c.args) == 2
+             for x in (c.args[1].elts if isinstance(c.args[1], ast.Tuple) else [c.args[1]]) if dotted(x)}
+    if walked and "Name" in kinds:
+        verdict, why = True, "ast.walk"
+    elif kinds & {"Name", "Tuple", "List", "Starred"} or any("elts" in norm(fn) for fn in fns):
+        missing = sorted({"Tuple", "List", "Starred"} - kinds)
+        recursive = any(isinstance(c, ast.Call) and ((isinstance(c.func, ast.Name) and c.func.id == fn.name) or (isinstance(c.func, ast.Attribute) and c.func.attr == fn.name)) for fn in fns for c in ast.walk(fn))
+        verdict = not missing and recursive
+        why = f"hand-written traversal; node kinds not handled: {missing}; recursive: {recursive}"
+    else:
+        verdict, why = None, "traversal not recognised"
+    ctx.decide("COMP-LEAK", f"{SC}|ScopeGen.iterator|all names", verdict,
+               f"iterator() must collect every Name inside the target (nested and starred destructuring), not only some of them ({why})", SC, it.lineno,
+               witness="(lfor #(a #(b #* c)) xs :do (f) a) leaks b and c", detail="ast.walk(target)")
     fz = comp.sc.func("ScopeGen.finalize")
     ctx.require(fz is not None, "ScopeGen.finalize not found")
     rt = [n for n in pyq.walk_no_nested(fz) if isinstance(n, ast.Return)]
@@ -112,6 +129,12 @@ def check(ctx, src):
     ctx.check(not post, "COMP-ELSE", f"{R}|{FN}|no post-hoc orelse", f"a loop's orelse/body is patched after construction ({[norm(p)[:60] for p in post]}): it can land on a node that is not the outermost loop", R, f.lineno, detail="none")
     ob = pyq.contains(f, lambda n: isinstance(n, ast.If) and norm(n.test) == "else_expr is not None" and "orel.append(compiler._compile_branch(else_expr))" in [norm(s) for s in n.body])
     ctx.check(ob is not None, "COMP-ELSE", f"{R}|{FN}|else compiled once", "the else forms must be compiled once into `orel`", R, f.lineno, detail="orel.append(_compile_branch(else_expr))")
+    from . import c11 as _c11
+    from .. import core as _core
+
+    ctx.rule("R-LIN", "Result-flow rules shared with C11, for the functions of this property: no value placed on a path that excludes the placement of its statements, no expression replaced while the operand's "
+             "temporaries stay exposed, no recursive call that loses a parameter")
+    _core.transfer(ctx, src, _c11, {"R-LIN-PATH", "R-EXPR-STORE", "R-REC-FWD"}, key_filter=lambda k: any(f in k for f in ('compile_comprehension',)))
     ctx.floor("COMP-GUARD", 6)
 
 
